@@ -11,11 +11,15 @@ import common as C
 from gen import c13_layout as L
 
 PROPERTY = "C13"
-LEAN_MODULES = ["LccModel.Props.C13", "LccModel.Props.C13Scan", "LccModel.Props.C13Params", "LccModel.Props.C13Reload"]
+LEAN_MODULES = ["LccModel.Props.C13", "LccModel.Props.C13Scan", "LccModel.Props.C13Params", "LccModel.Props.C13Reload",
+                "LccModel.Props.C13Spelling", "LccModel.Props.C13Attrs", "LccModel.Props.C13Heads"]
 PROPS_FILES = ["LccModel/Props/C13.lean", "LccModel/Props/C13Scan.lean", "LccModel/Props/C13Params.lean",
-               "LccModel/Props/C13Reload.lean"]
+               "LccModel/Props/C13Reload.lean", "LccModel/Props/C13Spelling.lean", "LccModel/Props/C13Attrs.lean",
+               "LccModel/Props/C13Heads.lean"]
 NAMESPACES = {"LccModel/Props/C13.lean": "LccModel.C13", "LccModel/Props/C13Scan.lean": "LccModel.C13Scan",
-              "LccModel/Props/C13Params.lean": "LccModel.C13Params", "LccModel/Props/C13Reload.lean": "LccModel.C13Reload"}
+              "LccModel/Props/C13Params.lean": "LccModel.C13Params", "LccModel/Props/C13Reload.lean": "LccModel.C13Reload",
+              "LccModel/Props/C13Spelling.lean": "LccModel.C13Spelling", "LccModel/Props/C13Attrs.lean": "LccModel.C13Attrs",
+              "LccModel/Props/C13Heads.lean": "LccModel.C13Heads"}
 DRIVER = "drivers/C13.lean"
 TRUSTED_BASE = [
     "Lean 4.33.0 kernel; axioms of the property theorems ⊆ {propext, Classical.choice, Quot.sound}",
@@ -202,6 +206,13 @@ def x_tests(tests, flags, in_class=False):
 
 def x_cls(c, flags, in_class=False):
     _cond_flags(c.get("vis"), c["attr"], "class", flags)
+    # what the class inherits / holds besides its members declares nothing (flags only)
+    for label, props, _ in L.mro_of(c)[0 if c.get("own_props") else 1:] if (c.get("bases") or c.get("own_props")) else []:
+        for pr in props:
+            flags.add("prop:" + ("own" if label == "own" else "grandbase" if ".up" in label else "base" if label == "base0" else "mixin"))
+            flags.add("getter:" + pr["getter"])
+    if L.inherited_tests(c):
+        flags.add("inherited-test")
     if c.get("ctor_fails"):
         flags.add("INVALID:ctor")
     if c.get("xrank") is not None:
@@ -211,7 +222,7 @@ def x_cls(c, flags, in_class=False):
     if dunder:
         flags.add("dunder-member")
     return {"name": name, "desc": c.get("desc") or _desc_from_name(name), "rank": c["rank"], "visible": _visible(c.get("vis"), c["attr"], flags), "fh": _fh(c.get("vis"), c["attr"], flags),
-            "origin": "class", "dunder": dunder, "tests": x_tests(c["tests"], flags, True),
+            "meta": _meta_of(c), "origin": "class", "dunder": dunder, "tests": x_tests(c["tests"] + L.inherited_tests(c), flags, True),
             "subs": [x_cls(s, flags, True) for s in sorted(c["subs"], key=lambda s: (s["rank"], s["attr"]))]}
 
 
@@ -219,7 +230,7 @@ def x_module(m, flags):
     info = m.get("info")
     if m.get("broken"):
         flags.add("INVALID:broken")
-    node = {"origin": "module", "tests": x_tests(m["tests"], flags),
+    node = {"origin": "module", "meta": _meta_of(info or {}), "tests": x_tests(m["tests"], flags),
             "subs": [x_cls(c, flags) for c in sorted(m["classes"], key=lambda c: (c["rank"], c["attr"]))]}
     if info is None:
         node.update(name=m["stem"], desc=_desc_from_name(m["stem"]), rank=m["auto_rank"], visible=True)
@@ -309,7 +320,7 @@ def x_dir(d, flags, loose_extra):
         if target is None:
             flags.add("dir-without-module" if _has_module(s) else "junk-dir")
             target = {"name": s["name"], "desc": _desc_from_name(s["name"]), "rank": 0, "visible": True, "origin": "dir",
-                      "tests": [], "subs": []}
+                      "meta": _meta_of({}), "tests": [], "subs": []}
             table.append([("dir", s["name"]), target])
         else:
             flags.add("module+directory")
@@ -322,18 +333,35 @@ def x_dir(d, flags, loose_extra):
     return kept
 
 
-def x_entries(nodes, prefix=(), via=False):
+def _suite_rec(n):
+    """what a test inherits from one enclosing suite: the suite's own declared name, description, tags, properties, links"""
+    return dict(n.get("meta") or _meta_of({}), name=n["name"], desc=n["desc"])
+
+
+def x_suite_paths(nodes, prefix=()):
+    """paths of the suites of the declared tree (visible ones)"""
+    out = []
+    for n in nodes:
+        p = prefix + (n["name"],)
+        out.append(p)
+        out += x_suite_paths([s for s in n["subs"] if s["visible"]], p)
+    return out
+
+
+def x_entries(nodes, prefix=(), via=False, chain=()):
     out = []
     for n in nodes:
         p = prefix + (n["name"],)
         v = via or bool(n.get("dunder"))
+        ch = chain + (_suite_rec(n),)
         for t in n["tests"]:
             if t["visible"]:
                 e = {k: t[k] for k in ("name", "desc", "rank", "tags", "props", "links", "disabled", "params")}
                 e["path"] = list(p) + [t["name"]]
                 e["via_dunder"] = v or bool(t.get("dunder"))
+                e["suites"] = list(ch)
                 out.append(e)
-        out += x_entries([s for s in n["subs"] if s["visible"]], p, v)
+        out += x_entries([s for s in n["subs"] if s["visible"]], p, v, ch)
     return out
 
 
@@ -409,7 +437,7 @@ def declared(case):
         nodes = [dict(x_cls(c, flags), visible=True)]
     entries = x_entries(nodes)
     drops = [] if entry not in ("dir", "files") else [list(p) for p in drop_names(lay if entry == "dir" else dict(lay, dirs=[]))]
-    return {"drops": drops, "entries": entries, "falsy_hidden": x_fh_paths(nodes + [n for n in extra if n.get("fh")], (), False) if "falsy-callable-hides" in flags else [],
+    return {"drops": drops, "entries": entries, "suite_paths": x_suite_paths(nodes), "falsy_hidden": x_fh_paths(nodes + [n for n in extra if n.get("fh")], (), False) if "falsy-callable-hides" in flags else [],
             "strict_dup": x_strict_dup(nodes), "loose_dup": x_loose_dup(nodes + extra),
             "flags": sorted(flags), "invalid": any(f.startswith("INVALID") for f in flags),
             "depth": max([len(e["path"]) for e in entries] + [0])}
@@ -463,17 +491,77 @@ def _classify(e):
     return {"class": cls, "kind": "other", "arg": msg[:200]}
 
 
+def _dump_chain(t):
+    """the enclosing suites of a loaded test, outermost first, each with its OWN metadata (what the test inherits)"""
+    return [{"name": s.name, "desc": s.description, "tags": list(s.tags), "props": sorted([k, v] for k, v in s.properties.items()),
+             "links": [[u, n] for u, n in s.links]} for s in t.hierarchy if s is not t]
+
+
 def _flat(suites):
     from lemoncheesecake.testtree import flatten_tests
-    return [_dump_test(t) for t in flatten_tests(suites)]
+    return [dict(_dump_test(t), suites=_dump_chain(t)) for t in flatten_tests(suites)]
+
+
+def _suite_paths(suites):
+    from lemoncheesecake.testtree import flatten_suites
+    return [[n.name for n in s.hierarchy] for s in flatten_suites(suites)]
+
+
+# How the caller SPELLS the directory handed to `load_suites_from_directory` (fifth seeded round): the loaded forest is a
+# function of the directory's content, not of the spelling of its path.  kind -> (working directory, argument), both relative
+# to the scratch directory `top` that holds `suites/`.
+SPELLINGS = ["abs", "abs", "rel", "dot-rel", "trailing-sep", "double-sep", "inner-dot", "dotdot", "rel-trailing", "dot-double-sep",
+             "symlink", "cwd-dot", "rel-symlink", "triple-sep"]
+
+
+def spell(kind, top):
+    """-> (cwd or None, path string) for the suites directory `top/suites`"""
+    sep = os.sep
+    root = os.path.join(top, "suites")
+    if kind == "rel":
+        return top, "suites"
+    if kind == "dot-rel":
+        return top, "." + sep + "suites"
+    if kind == "trailing-sep":
+        return None, root + sep
+    if kind == "double-sep":
+        return None, top + sep + sep + "suites"
+    if kind == "triple-sep":
+        return top, "." + sep + sep + sep + "suites" + sep + sep
+    if kind == "inner-dot":
+        return None, top + sep + "." + sep + "suites"
+    if kind == "dotdot":
+        return top, ".." + sep + os.path.basename(top) + sep + "suites"
+    if kind == "rel-trailing":
+        return top, "suites" + sep
+    if kind == "dot-double-sep":
+        return top, "." + sep + sep + "suites"
+    if kind == "symlink":
+        os.symlink("suites", os.path.join(top, "link"))
+        return None, os.path.join(top, "link")
+    if kind == "rel-symlink":
+        os.symlink("suites", os.path.join(top, "link"))
+        return top, "." + sep + "link"
+    if kind == "cwd-dot":
+        return root, "."
+    return None, root
+
+
+def spell_text(kind):
+    """the argument string of a spelling, up to the scratch directory's own name (no file system access)"""
+    if kind in ("symlink", "rel-symlink"):
+        return {"symlink": os.sep + "T" + os.sep + "link", "rel-symlink": "." + os.sep + "link"}[kind]
+    return spell(kind, os.sep + "T")[1]
 
 
 def observe(case):
     from lemoncheesecake.suite import loader, builder
     from lemoncheesecake.helpers.moduleimport import import_module
 
-    top = tempfile.mkdtemp(prefix="lccverif-c13-")
+    top = os.path.realpath(tempfile.mkdtemp(prefix="lccverif-c13-"))
     root = os.path.join(top, "suites")
+    old_cwd = os.getcwd()
+    mods_before = set(sys.modules)
     old_dwb = sys.dont_write_bytecode
     sys.dont_write_bytecode = True
     env = L.env_of(case["layout"])      # what the conditions read from the environment at load time
@@ -498,7 +586,10 @@ def observe(case):
         entry = case["entry"]
         try:
             if entry == "dir":
-                suites = loader.load_suites_from_directory(root)
+                cwd, arg = spell(case.get("spelling") or "abs", top)
+                if cwd:
+                    os.chdir(cwd)
+                suites = loader.load_suites_from_directory(arg)
             elif entry == "files":
                 suites = loader.load_suites_from_files(os.path.join(root, "*.py"), excluding=os.path.join(root, "__*.py"))
             elif entry == "file":
@@ -510,7 +601,8 @@ def observe(case):
                 except Exception as e:       # the harness's own import of the module (not the loader)
                     return {"error": {"class": "SuiteLoadingError", "kind": "importError", "arg": stem, "by": "harness-import"}}
                 suites = [loader.load_suite_from_class(getattr(mod, attr))]
-            return {"ok": [_dump_suite(s) for s in suites], "flat": _flat(suites), "imported_drops": imported()}
+            return {"ok": [_dump_suite(s) for s in suites], "flat": _flat(suites), "suite_paths": _suite_paths(suites),
+                    "imported_drops": imported()}
         except Exception as e:      # classified: the loader's exceptions are part of the observation
             return {"error": _classify(e), "imported_drops": imported()}
     finally:
@@ -519,8 +611,10 @@ def observe(case):
                 os.environ.pop(k, None)
             else:
                 os.environ[k] = val
+        os.chdir(old_cwd)
         sys.dont_write_bytecode = old_dwb
-        for k in [k for k in sys.modules if isinstance(k, str) and k.startswith(top)]:
+        # `import_module` registers every suite module under its path STRING (relative spellings included)
+        for k in [k for k in sys.modules if isinstance(k, str) and (k.startswith(top) or (k not in mods_before and k.endswith(".py")))]:
             del sys.modules[k]
         builder._objects_with_metadata.clear()
         shutil.rmtree(top, ignore_errors=True)
@@ -558,10 +652,23 @@ def _j_test(t):
     return j
 
 
+_GETTER_CLASS = {"raise-attr": "raises", "raise-runtime": "raises", "fixture": "raises", "returns-test": "returns",
+                 "returns-suite": "returns", "value": "value"}
+
+
+def _j_mro(c):
+    """the class dicts of the MRO besides the members: properties by what their getter does at load time, plain attributes"""
+    if not c.get("bases") and not c.get("own_props"):
+        return None
+    return [[{"name": p["name"], "kind": "property", "getter": _GETTER_CLASS[p["getter"]], "target": p.get("target") or ""} for p in props] +
+            [{"name": a[1:], "kind": "member"} if a.startswith("=") else {"name": a, "kind": "plain"} for a in attrs]
+            for _, props, attrs in L.mro_of(c)]
+
+
 def _j_cls(c):
     return dict(_j_meta(c), attr=c["attr"], name=c.get("name"), desc=c.get("desc"), rank=c["rank"], vis=_j_vis(c.get("vis"), c["attr"]),
                 disabled=c.get("disabled") or False, ctor_fails=bool(c.get("ctor_fails")),
-                tests=[_j_test(t) for t in c["tests"]], subs=[_j_cls(s) for s in c["subs"]])
+                tests=[_j_test(t) for t in c["tests"] + L.inherited_tests(c)], subs=[_j_cls(s) for s in c["subs"]], mro=_j_mro(c))
 
 
 def _j_module(m):
@@ -596,7 +703,9 @@ def model_request(case):
     entry, pick = case["entry"], case.get("pick")
     lay = L.with_ranks(case["layout"], entry, pick)
     if entry == "dir":
-        return {"entry": "rawdir", "dir": _j_rawdir(lay)}
+        # the spelling travels as text (the scratch directory's own name abstracted to `T`: the model never reads directory names
+        # of the argument, only its separators)
+        return {"entry": "rawdir", "dir": _j_rawdir(lay), "spelling": spell_text(case.get("spelling") or "abs")}
     if entry == "files":
         return {"entry": "rawfiles", "files": _j_files(lay)}
     if entry == "file":
@@ -681,10 +790,20 @@ def _shrink_lists(obj, path=()):
                     c = copy.deepcopy(obj)
                     del c["param"]["sets"][i]
                     yield c
-            elif k in ("tags", "props", "links") and v:
+            elif k in ("tags", "props", "links", "bases", "own_props") and v:
                 c = copy.deepcopy(obj)
                 c[k] = []
                 yield c
+                if k == "bases":
+                    for i, b in enumerate(v):
+                        if len(v) > 1:
+                            c = copy.deepcopy(obj)
+                            del c[k][i]
+                            yield c
+                        if b["up"] or b["attrs"] or len(b["props"]) > 1:
+                            c = copy.deepcopy(obj)
+                            c[k][i] = dict(b, up=[], attrs=[], props=b["props"][:1])
+                            yield c
             elif k in ("vis", "disabled", "xrank", "info", "name", "desc") and v is not None:
                 c = copy.deepcopy(obj)
                 c[k] = None
@@ -878,15 +997,70 @@ HEADER_SPELLINGS = [
 ]
 
 
+def _sub(name, mods, dirs=()):
+    return {"name": name, "noise": False, "dirs": list(dirs), "mods": list(mods)}
+
+
+# fifth seeded round.  (a) the SPELLING of the directory argument: a module with its companion directory, loaded through
+# './suites', 'top//suites', '.' (from inside), a symbolic link …: one suite `api` carrying the module's metadata, whatever the
+# spelling (minimised failing input of the seeded change C13-11 first).  (b) a module that holds only the METADATA of its suite
+# (SUITE = {description, tags, …}, no test of its own) and whose tests all live in the companion directory (minimised failing
+# input of the seeded change C12-11): the tests below inherit the module's metadata.
+def _api(own_tests):
+    return {"name": "suites", "noise": False,
+            "mods": [_m("api", tests=own_tests, info=_info(desc="The API", tags=["api"], props=[["layer", "rest"]],
+                                                            links=[["http://bug/1", "bug1"]]))],
+            "dirs": [_sub("api", [_m("users", tests=[_t("create")])])]}
+
+
+SPELLED = [{"entry": "dir", "defect": None, "spelling": k, "layout": _api([_t("ping")])}
+           for k in ("dot-rel", "double-sep", "cwd-dot", "rel-symlink", "dotdot", "triple-sep")] + [
+    {"entry": "dir", "defect": None, "spelling": "abs", "layout": _api([])},
+    {"entry": "dir", "defect": None, "spelling": "rel-trailing", "layout": {
+        "name": "suites", "noise": False, "mods": [_m("api", info=_info(tags=["api"])), _m("zz", tests=[_t("t")])],
+        "dirs": [_sub("api", [_m("v1", info=_info(desc="Version 1", props=[["v", "1"]]))],
+                      [_sub("v1", [_m("users", classes=[_c("admin", [_t("create")])])])])]}},
+]
+
+
+def _base(props, attrs=(), up=()):
+    return {"props": [dict(p) for p in props], "attrs": list(attrs), "up": list(up)}
+
+
+def _p(name, getter, target=None):
+    return dict({"name": name, "getter": getter}, **({"target": target} if target else {}))
+
+
+# fifth seeded round, (c): suite classes that INHERIT properties from plain helper base classes / mixins (minimised failing
+# inputs of the seeded change C13-12 first: a getter reading an injected fixture, a getter handing out a test of the suite)
+INHERITED = [
+    {"entry": "dir", "defect": None, "layout": {"name": "suites", "noise": False, "dirs": [], "mods": [
+        _m("shop", classes=[_c("cart", [_t("add_item")], bases=[_base([_p("session", "fixture")], ["api"])])])]}},
+    {"entry": "dir", "defect": None, "layout": {"name": "suites", "noise": False, "dirs": [], "mods": [
+        _m("shop", classes=[_c("cart", [_t("add_item")], bases=[_base([_p("entry_point", "returns-test", "add_item")])])])]}},
+    {"entry": "class", "pick": ["shop", "checkout"], "defect": None, "layout": {"name": "suites", "noise": False, "dirs": [], "mods": [
+        _m("shop", classes=[_c("checkout", [_t("pay", pos=0), _t("wip", pos=1, vis="hidden")], [_c("refund", [_t("full")], pos=2)],
+                               bases=[_base([_p("aa_prop", "value")], [], [_base([_p("client", "raise-runtime")])]),
+                                      _base([_p("inner", "returns-suite", "refund")], ["TIMEOUT"])],
+                               own_props=[_p("session", "raise-attr")])])]}},
+    # test methods inherited from a plain base class are members like the class's own (numbered before them), next to an
+    # inherited property that hands out one of them
+    {"entry": "dir", "defect": None, "layout": {"name": "suites", "noise": False, "dirs": [], "mods": [
+        _m("shop", classes=[_c("cart", [_t("add_item", pos=0), _t("remove_item", pos=1, disabled=True)],
+                               bases=[dict(_base([_p("entry_point", "returns-test", "add_item")]),
+                                           tests=[_t("base_smoke", pos=0, tags=["smoke"]), _t("inh_check", pos=1, vis="hidden")])])])]}},
+]
+
+
 class Load(C.Stream):
     name = "C13.load"
     malformed = False
-    quick_cases = 2200
+    quick_cases = 2000
     thorough_cases = 30000
     quick_seconds = 38
     thorough_seconds = 420
     chunk = 60
-    corpus = [WITNESS_D18, WITNESS_D36] + DROPPINGS + COND_SHAPES + CORPUS_SHAPES + HEADER_SPELLINGS
+    corpus = [WITNESS_D18, WITNESS_D36] + SPELLED + INHERITED + DROPPINGS + COND_SHAPES + CORPUS_SHAPES + HEADER_SPELLINGS
 
     def gen(self, rng, i):
         lay = L.gen_layout(rng)
@@ -910,6 +1084,9 @@ class Load(C.Stream):
             if cands:
                 case["entry"] = "class"
                 case["pick"] = list(rng.choice(cands))
+        if case["entry"] == "dir":
+            # drawn last: no other choice of the layouts moves
+            case["spelling"] = rng.choice(SPELLINGS)
         return case
 
     def impl(self, case):
@@ -918,6 +1095,15 @@ class Load(C.Stream):
     def oracle(self, case, obs):
         dec = declared(case)
         fails = self.judge(dec, obs)
+        if fails and case["entry"] == "dir" and {m["stem"] for m in case["layout"]["mods"]} & {d["name"] for d in case["layout"]["dirs"]}:
+            # open finding D47: `glob` drops REPEATED trailing separators of the directory argument, `os.path.join` keeps them,
+            # so the string lookup `suites.get(dirname + ".py")` misses at the top level.  Only this class of arguments is
+            # relabelled (one signature, registered as open finding); every other spelling is judged as it stands.
+            arg = spell_text(case.get("spelling") or "abs")
+            if arg.endswith(os.sep * 2) and arg.strip(os.sep):
+                return [C.Failure("C13/dir-argument-repeated-trailing-separators",
+                                  f"load_suites_from_directory({arg!r}): a module and its companion directory are not paired "
+                                  f"({fails[0].signature}: {fails[0].message[:300]})")]
         if fails and dec["falsy_hidden"] and "ok" in obs:
             # label only (the failures above stand as they are): the regression of the repaired finding D36 — an item whose
             # condition returns a false value is loaded when the condition callable is itself a false value
@@ -952,6 +1138,12 @@ class Load(C.Stream):
                 return fails
             gp = [tuple(e["path"]) for e in got]
             from collections import Counter
+            sp_got = [tuple(p) for p in obs.get("suite_paths") or []]
+            if _dups(sp_got) and not _dups([tuple(p) for p in dec.get("suite_paths") or []]):
+                # every declared suite is ONE node of the loaded tree: a module and its companion directory are one suite
+                twice = sorted({".".join(p) for p, k in Counter(sp_got).items() if k > 1})
+                fails.append(C.Failure("C13/duplicate-suite-node",
+                                       f"the loaded tree holds several suites at the same path although the layout declares each suite once: {twice[:4]}"))
             have = Counter(gp)
             for e in exp:
                 if not e["via_dunder"]:
@@ -990,6 +1182,13 @@ class Load(C.Stream):
                                 fails.append(C.Failure("C13/wrong-metadata", f"{'.'.join(g['path'])}: {k} {g[k]!r} vs declared {e[k]!r}"))
                         if g["params"] != e["params"]:
                             fails.append(C.Failure("C13/wrong-parameters", f"{'.'.join(g['path'])}: {g['params']!r} vs declared {e['params']!r}"))
+                        if "suites" in g and g["suites"] != e["suites"] and not any(f.signature == "C13/enclosing-suite-metadata-lost" for f in fails):
+                            # the path is "given by its enclosing directories, modules and suite classes": each enclosing suite is the
+                            # declared one, with ITS declared description / tags / properties / links (what the test inherits)
+                            lvl = next((i for i, (a, b) in enumerate(zip(g["suites"], e["suites"])) if a != b), min(len(g["suites"]), len(e["suites"])))
+                            fails.append(C.Failure("C13/enclosing-suite-metadata-lost",
+                                                   f"{'.'.join(g['path'])}: enclosing suite #{lvl} is {g['suites'][lvl:lvl + 1]!r}, "
+                                                   f"declared {e['suites'][lvl:lvl + 1]!r}"))
         else:
             if not dec["loose_dup"] and not dec["invalid"]:
                 fails.append(C.Failure("C13/valid-layout-rejected",
@@ -1005,6 +1204,15 @@ class Load(C.Stream):
         if case["entry"] == "class" and obs.get("error", {}).get("by") == "harness-import":
             return None if ans.get("mod_broken", True) else "harness import failed on a module the layout does not call broken"
         dec = declared(case)
+        if "spelling_ok" in ans:
+            # theorem instance `C13Spelling.load_invariant_under_spelling`: for an accepted spelling the forest is that of the
+            # unspelled model; and the harness's own reading of the guard (D47: two or more trailing separators)
+            arg = spell_text(case.get("spelling") or "abs")
+            mine = not (arg.endswith(os.sep * 2) and arg.strip(os.sep))
+            if ans["spelling_ok"] != mine:
+                return f"Lean spellingOk({arg!r}) = {ans['spelling_ok']}, the harness reads the guard as {mine}"
+            if ans["spelling_ok"] and ans["names_ok"] and not ans["same_as_unspelled"]:
+                return f"Lean: loadDirRealAt {arg!r} differs from loadDirReal although the spelling is accepted (theorem instance violated?)"
         for pth, acc, stem in ans.get("scan") or []:
             if acc != L.scan_accepts(pth[-1]):
                 return f"model scan decision on {pth[-1]!r}: {acc}, the layout's rule says {L.scan_accepts(pth[-1])}"
@@ -1020,10 +1228,11 @@ class Load(C.Stream):
             # the specification side of the theorems against the generator's own list
             spec = [dict(_canon_model_test(t), path=p) for p, t in ans["declared"]]
             ent = [dict(_canon_model_test(t), path=p) for p, t in ans["entries"]]
-            if spec != ent:
+            # (guard of `load_real_exact_under_spelling`: outside `spellingOk` — open finding D47 — exactness is refuted, not claimed)
+            if spec != ent and ans.get("spelling_ok", True):
                 return "Lean: entries(load L) differs from declared L (theorem instance violated?)"
             full = [dict(_canon_model_test(t), path=p) for p, t in ans["declared_full"]]
-            gen = [{k: v for k, v in e.items() if k != "via_dunder"} for e in dec["entries"]]
+            gen = [{k: v for k, v in e.items() if k not in ("via_dunder", "suites")} for e in dec["entries"]]
             # a template with a missing key declares no name: the two specifications need not agree on it
             d = None if "INVALID:missing-key" in dec["flags"] else _first_diff(full, gen, "declared")
             if d:
@@ -1051,6 +1260,10 @@ class Load(C.Stream):
     def features(self, case, obs):
         dec = declared(case)
         f = ["entry=" + case["entry"], "outcome=" + ("ok" if "ok" in obs else "error:" + obs["error"]["kind"])]
+        if case["entry"] == "dir":
+            f.append("spelling=" + (case.get("spelling") or "abs"))
+            if "module+directory" in dec["flags"] and (case.get("spelling") or "abs") != "abs":
+                f.append("respelled+module+directory")
         f += ["has:" + x for x in dec["flags"]]
         f.append("tests=%s" % ("0" if not dec["entries"] else "1-5" if len(dec["entries"]) <= 5 else "6-15" if len(dec["entries"]) <= 15 else ">15"))
         f.append("depth=%d" % dec["depth"])
@@ -1078,7 +1291,7 @@ class Load(C.Stream):
 class Malformed(Load):
     name = "C13.malformed"
     malformed = True
-    quick_cases = 1300
+    quick_cases = 1150
     thorough_cases = 18000
     quick_seconds = 24
     thorough_seconds = 260
@@ -1423,6 +1636,94 @@ def scan_tables():
     finally:
         shutil.rmtree(top, ignore_errors=True)
 
+# ---------------------------------------------------------------------------------------------
+# decision table of the attribute scan (`helpers/introspection.get_object_attributes` on a suite object): which names of
+# `dir(obj)` it yields, and whether it evaluates a property for that, by WHERE in the MRO the name is first defined and as what
+# ---------------------------------------------------------------------------------------------
+_G = ("raises", "returns", "value")
+ATTR_SHAPES = (
+    [[[("t", "member")], [("p", "prop", g)]] for g in _G] +                                   # inherited from the base
+    [[[("t", "member"), ("p", "prop", g)]] for g in _G] +                                     # own
+    [[[("t", "member")], [("c", "plain")], [("p", "prop", g)]] for g in _G] +                 # grand-base / second mixin
+    [[[("t", "member")], [("p", "prop", g)], [("q", "prop", "raises")]] for g in _G] +         # two levels of properties
+    [[[("t", "member"), ("p", "plain")], [("p", "prop", "raises")]],                          # overridden by a plain attribute
+     [[("t", "member"), ("p", "prop", "raises")], [("p", "plain")]],                          # a property overriding a plain one
+     [[("t", "member")], [("p", "prop", "raises")], [("p", "plain")]],
+     [[("t", "member")], [("p", "plain")], [("p", "prop", "raises")]],
+     [[("u", "plain")], [("t", "member")]],                                                   # an inherited test method
+     [[("t", "plain")], [("t", "member")]],                                                   # … overridden by a constant
+     [[("t", "prop", "value")], [("t", "member")]],                                           # … overridden by a property
+     [[("t", "member")], [("t", "prop", "raises")]],                                          # a test overriding a base's property
+     [[("t", "member"), ("__p__", "prop", "raises")], [("__q__", "plain")]],                  # '__' names
+     [[("t", "member")], []], [[], []]])
+
+
+def _lean_mro(mro):
+    def ent(e):
+        if e[1] == "member":
+            return 'ClassAttrs.Entry.member (ClassAttrs.Member.test { attr := %s, rank := 1 })' % _lean_str(e[0])
+        if e[1] == "plain":
+            return "ClassAttrs.Entry.plain"
+        g = {"raises": "ClassAttrs.Getter.raises", "value": "ClassAttrs.Getter.value",
+             "returns": '(ClassAttrs.Getter.returns (ClassAttrs.Member.test { attr := "t", rank := 1 }))'}[e[2]]
+        return "ClassAttrs.Entry.property " + g
+    return "[" + ", ".join("[" + ", ".join("(%s, %s)" % (_lean_str(e[0]), ent(e)) for e in d) + "]" for d in mro) + "]"
+
+
+def attr_tables():
+    """Execute the REAL `get_object_attributes` on an instance of a class whose MRO has the given dicts — built once as a
+    single-inheritance chain and once as a class with independent mixins (same MRO, must decide the same) — and record per
+    name of `dir()`: is it yielded; was a property getter run."""
+    import lemoncheesecake.api as lcc
+    from lemoncheesecake.helpers.introspection import get_object_attributes
+    rows = []
+    for mro in ATTR_SHAPES:
+        res = []
+        for how in ("chain", "mixins"):
+            evaluated = []
+
+            def mk_dict(d):
+                ns = {}
+                for e in d:
+                    if e[1] == "member":
+                        def t(self):
+                            pass
+                        t.__name__ = e[0]
+                        ns[e[0]] = lcc.test("T")(t)
+                    elif e[1] == "plain":
+                        ns[e[0]] = 42
+                    else:
+                        def getter(self, _g=e[2], _n=e[0]):
+                            evaluated.append(_n)
+                            if _g == "raises":
+                                raise AttributeError("only at run time")
+                            return getattr(self, "t") if _g == "returns" else 42
+                        ns[e[0]] = property(getter)
+                return ns
+            classes = []
+            if how == "chain":
+                parent = object
+                for i, d in reversed(list(enumerate(mro))):
+                    parent = type("K%d" % i, (parent,), mk_dict(d))
+                cls = parent
+            else:
+                bases = tuple(type("K%d" % i, (object,), mk_dict(d)) for i, d in list(enumerate(mro))[1:])
+                cls = type("K0", bases or (object,), mk_dict(mro[0]))
+            obj = cls()
+            names = sorted({e[0] for d in mro for e in d})
+            try:
+                got = [n for n, _ in get_object_attributes(obj)]
+            except Exception:        # a getter was run and raised: the scan yields nothing to its caller
+                got = []
+            out = {n: (n in got, n in evaluated) for n in names}
+            res.append(out)
+        assert res[0] == res[1], (mro, res)
+        for n, (listed, ev) in sorted(res[0].items()):
+            rows.append(("(%s, %s)" % (_lean_mro(mro), _lean_str(n)), "(%s, %s)" % (_B(listed), _B(ev)),
+                         "MRO %r: %r yielded=%s getter-evaluated=%s" % (mro, n, listed, ev)))
+    return rows
+
+
 # header strings of the CSV-like form of @lcc.parametrized the real `_Parametrized.parameters_source` is asked about:
 # spellings of one / two / three fields with white space before / after each field, and every character below 0x100 plus the
 # Unicode spaces and their look-alikes as padding in all four positions
@@ -1619,6 +1920,7 @@ def tables(ctx):
     return [
         C.Table("scanFilterTable", "List (List Char × (Bool × Bool × Bool × Bool))", scan_rows, imports),
         C.Table("scanStemTable", "List (List Char × List Char)", stem_rows, imports),
+        C.Table("propertyScanTable", "List ((ClassAttrs.MRO × String) × (Bool × Bool))", attr_tables(), imports + ("LccModel.Model.ClassAttrs",)),
         C.Table("testFunctionCondTable", "List (Vis × (Bool × Nat))", rows_fn, imports),
         C.Table("testMethodCondTable", "List (Vis × (Bool × Nat))", rows_meth, imports),
         C.Table("classCondTable", "List (Vis × (Bool × Nat × Nat))", rows_cls, imports),
